@@ -753,10 +753,8 @@ def lstsq_rules(run, db):
               'data and modes are not restricted by the same finite-mask (data: %s, modes: %s)' % ([ast.unparse(n.value) for n in d], [ast.unparse(n.value) for n in m]), f.loc())
     calls = [n for n in walk_no_nested(f.node) if isinstance(n, ast.Call) and ast.unparse(n.func).endswith('linalg.lstsq')]
     run.check(len(calls) == 1 and [ast.unparse(a) for a in calls[0].args[:2]] == ['modes', 'data'], 'C10.lstsq', f.qual, 'solve', 'lstsq(modes, data)', 'least squares is not solved as lstsq(modes, data)', f.loc())
-    fs = db.func(P + 'sum_of_2d_modes')
-    calls = [n for n in walk_no_nested(fs.node) if isinstance(n, ast.Call) and ast.unparse(n.func).endswith('tensordot')]
-    ok = len(calls) == 1 and [ast.unparse(a) for a in calls[0].args[:2]] == ['modes', 'weights'] and any(k.arg == 'axes' and ast.unparse(k.value).replace(' ', '') in ('(0,0)', '([0],[0])') for k in calls[0].keywords)
-    run.check(ok, 'C10.tensordot', fs.qual, 'contraction', 'sum_of_2d_modes contracts the mode axis of modes with the weights', 'sum_of_2d_modes does not contract axis 0 with axis 0', fs.loc())
+    from . import c06
+    c06.sum_rules(run, db, rule='C10.tensordot')
 
 
 def check(run, db, tier):
